@@ -234,3 +234,58 @@ pub fn gen_trees(rng: &mut Rng, n: usize) -> Vec<ClassFile> {
 	let names: Vec<String> = u.classes[..n].to_vec();
 	names.iter().enumerate().map(|(i, name)| class(rng, &u, name, i, n)).collect()
 }
+
+/// classes inside the part of the tree that the Coq translation X27.Tr.tr covers (class skeleton, fields, methods, Code with
+/// reference-carrying and operand-free instructions; no frames, annotations, constants, unknown attributes): for these the
+/// model side also checks that C02's writer model applied to tr(tree) yields duke's bytes
+pub fn gen_fragment_trees(rng: &mut Rng, n: usize) -> Vec<ClassFile> {
+	let u = universe(rng, n);
+	let names: Vec<String> = u.classes[..n].to_vec();
+	names.iter().enumerate().map(|(i, name)| {
+		let version = *rng.pick(&[Version::V1_8, Version::V11, Version::V17][..]);
+		let mut access = ClassAccess::default();
+		access.is_public = rng.chance(1, 2); access.is_super = true; access.is_final = rng.chance(1, 4);
+		let sup = super_type(rng, &u, i, n);
+		let mut c = ClassFile::new(version, access, obj(name), Some(obj(&sup)), (0..rng.below(3)).map(|_| obj(&super_type(rng, &u, i, n))).collect());
+		let mut seen = vec![];
+		for _ in 0..rng.below(3) {
+			let (fnm, d) = (pk(rng, &FIELDS[..]).to_string(), u.field_desc(rng));
+			if seen.contains(&(fnm.clone(), d.clone())) { continue; }
+			seen.push((fnm.clone(), d.clone()));
+			let mut f = Field::new(FieldAccess::from(rng.pick(&[0x0001u16, 0x0019, 0x4019, 0x0002][..]).clone()), fname(&fnm), fdesc(&d));
+			f.has_deprecated_attribute = rng.chance(1, 6);
+			if rng.chance(1, 4) { f.signature = Some(FieldSignature::try_from(js(&format!("L{}<TT;>;", u.any_class(rng)))).expect("signature")); }
+			c.fields.push(f);
+		}
+		let mut seen = vec![];
+		for _ in 0..rng.range(1, 3) {
+			let (mn, d) = (pk(rng, &METHODS[..]).to_string(), u.method_desc(rng));
+			if seen.contains(&(mn.clone(), d.clone())) { continue; }
+			seen.push((mn.clone(), d.clone()));
+			let mut m = Method::new(MethodAccess::from(rng.pick(&[0x0001u16, 0x0009, 0x0401, 0x1041][..]).clone()), mname(&mn), mdesc(&d));
+			if !m.access.is_abstract {
+				let mut code = Code::default();
+				code.max_stack = Some(rng.below(10) as u16); code.max_locals = Some(rng.range(1, 9) as u16);
+				for _ in 0..rng.range(1, 10) {
+					let insn = match rng.below(18) {
+						0 => Instruction::GetStatic(u.field_ref(rng)), 1 => Instruction::PutStatic(u.field_ref(rng)), 2 => Instruction::GetField(u.field_ref(rng)), 3 => Instruction::PutField(u.field_ref(rng)),
+						4 => Instruction::InvokeVirtual(u.method_ref(rng)), 5 => Instruction::InvokeSpecial(u.method_ref(rng), rng.chance(1, 4)), 6 => Instruction::InvokeStatic(u.method_ref(rng), rng.chance(1, 4)),
+						7 => Instruction::InvokeInterface(MethodRef { class: cls(&u.any_class(rng)), name: mname(pk(rng, &METHODS[..5])), desc: mdesc(&u.method_desc(rng)) }),
+						8 => Instruction::New(cls(&u.any_class(rng))), 9 => Instruction::ANewArray(u.class_any(rng)), 10 => Instruction::CheckCast(u.class_any(rng)), 11 => Instruction::InstanceOf(u.class_any(rng)),
+						12 => Instruction::MultiANewArray(cls(&format!("[[{}", u.field_desc(rng))), rng.range(1, 2) as u8),
+						13 => Instruction::Dup, 14 => Instruction::Pop, 15 => Instruction::AConstNull, 16 => Instruction::ArrayLength, _ => Instruction::LAdd,
+					};
+					code.instructions.push(InstructionListEntry { label: None, frame: None, instruction: insn });
+				}
+				code.instructions.push(InstructionListEntry { label: None, frame: None, instruction: Instruction::Return });
+				m.code = Some(code);
+			}
+			if rng.chance(1, 3) { m.exceptions = Some((0..rng.range(1, 2)).map(|_| cls(&u.any_class(rng))).collect()); }
+			m.has_synthetic_attribute = rng.chance(1, 8);
+			c.methods.push(m);
+		}
+		if rng.chance(1, 2) { c.source_file = Some(js(&format!("{}.java", name.rsplit('/').next().unwrap_or(name)))); }
+		c.has_deprecated_attribute = rng.chance(1, 8);
+		c
+	}).collect()
+}
